@@ -437,7 +437,7 @@ class Interp:
                     raise Unsupported("bare return")
                 self.ret = self.ev(st.value)
                 continue
-            if isinstance(st, ast.Delete):
+            if isinstance(st, (ast.Delete, ast.Pass)):
                 continue
             raise Unsupported(type(st).__name__)
 
